@@ -7,17 +7,17 @@
   the real code; `feedAll m _ s b chunks` delivers the stream `chunks.flatten` cut as `chunks`.
 
   What is proved here
-    * TurnTcp: segmentation independence for every mode / stream / cut list that avoids a zero-size
-      read (`_partial`), negation by witness without that hypothesis, no buffer fault for ANY input
-      and any base state;
+    * TurnTcp: segmentation independence at FULL strength (every mode / stream / cut list; frames
+      without payload included since f7890e0), no buffer fault for ANY input and any base state;
     * Rfc4571: segmentation independence at FULL strength, delivered messages = reference frame parser,
-      no fault; send side: in-bounds scatter for single-buffer messages, over-read witness for several;
+      no fault; send side (a5ed163): every packet is the next <= 0xF800 bytes of the message, read inside
+      the buffers, for any number of buffers (= Nice.Copy.gather of Props/C02);
     * Socks5 / PseudoSsl / Http: NOT segmentation independent on the unchanged tree — witnesses;
       per-call independence when the reply is whole (`_partial`); tunnel identity once connected,
       for every cut list; HTTP additionally loses coalesced payload (witness) and its receive window
       stays inside the ring;
-    * SendQueue: accepted-bytes ++ backlog = concatenation of accepted frames for every partial-write
-      pattern (single-buffer messages, `_partial`), flush lemma, negation for multi-buffer messages.
+    * SendQueue (2caa19c): accepted-bytes ++ backlog = concatenation of accepted frames for every
+      partial-write pattern and messages of any number of buffers, flush lemma.
   Helper lemmas: Nice/Proofs/C17*.lean.
 -/
 import Nice.Proofs.C17SendQueue
@@ -25,6 +25,7 @@ import Nice.Proofs.C17Tunnel
 import Nice.Proofs.C17TurnTcp
 import Nice.Proofs.C17Handshake
 import Nice.Proofs.C17Rfc4571
+import Nice.Props.C02
 set_option maxRecDepth 100000
 namespace Nice.Props.C17
 open Nice.Sock Nice.Drv
@@ -53,15 +54,13 @@ theorem C17_turntcp_no_fault (c : Compat) (b : Base) (chunks : List Bytes) :
 /-- non-vacuity: the maximum-length header (`00 01 ff ff`, RFC 5766 mode) is refused, not stored -/
 example : (feedAll turnTcpM (fun _ => 0) { compat := .rfc5766 } {} [[0, 1, 0xff, 0xff], [0, 0]]).2.2.rets = [-1, -1] := by
   decide
-/-- **C17, TURN-over-TCP, segmentation independence** (`_partial`): for every compatibility mode,
-    every byte stream `s` and EVERY way `cs` of cutting it into reads (any number of cuts, empty
-    reads allowed), the final layer state, the messages delivered upward with their boundaries,
-    the bytes written downward and the error outcome are the same as when `s` arrives in one read —
-    provided the stream never makes the layer issue a zero-size read (`NoZeroRead`: no frame with an
-    empty payload).  Without that hypothesis the statement is false on the unchanged tree
-    (`C17_turntcp_zero_frame_dependent`). -/
-theorem C17_turntcp_split_independent_partial (c : Compat) (s : Bytes) (cs : List Bytes)
-    (hs : cs.flatten = s) (hne : cs ≠ []) (hz : NoZeroRead c s) :
+/-- **C17, TURN-over-TCP, segmentation independence** (full strength): for every compatibility mode,
+    every byte stream `s` and EVERY way `cs` of cutting it into at least one read (any number of
+    cuts, empty reads allowed), the final layer state, the messages delivered upward with their
+    boundaries, the bytes written downward and the error outcome are the same as when `s` arrives in
+    one read.  Frames without payload are covered: since f7890e0 no zero-size read is issued. -/
+theorem C17_turntcp_split_independent (c : Compat) (s : Bytes) (cs : List Bytes)
+    (hs : cs.flatten = s) (hne : cs ≠ []) :
     tOut (feedAll turnTcpM (fun _ => 0) { compat := c } {} cs) =
     tOut (feedAll turnTcpM (fun _ => 0) { compat := c } {} [s]) := by
   cases hh : headerLen c with
@@ -73,34 +72,26 @@ theorem C17_turntcp_split_independent_partial (c : Compat) (s : Bytes) (cs : Lis
     simp only [feedAll, tOut, TOut.mk.injEq, Obs.wire]
     refine ⟨by rw [a1, b1], by rw [a2, b2], by rw [a3, b3], by rw [a4 hne, b4 (by simp)]⟩
   | some hl =>
-    have hz' : (runA c hl {} s).ph ≠ .zero := by
-      simp only [NoZeroRead, hh] at hz; exact hz
-    have i1 := feedAll_inv hl c cs [] _ (init_inv hl c hh) (by simpa [hs] using hz')
-    have i2 := feedAll_inv hl c [s] [] _ (init_inv hl c hh) (by simpa using hz')
+    have i1 := feedAll_inv hl c cs [] _ (init_inv hl c hh)
+    have i2 := feedAll_inv hl c [s] [] _ (init_inv hl c hh)
     simp only [List.nil_append, hs] at i1
     simp only [List.nil_append, List.flatten_cons, List.flatten_nil, List.append_nil] at i2
     simp only [feedAll]
-    rw [tOut_of_inv hl c s _ i1 hz', tOut_of_inv hl c s _ i2 hz']
+    rw [tOut_of_inv hl c s _ i1, tOut_of_inv hl c s _ i2]
 
-/-- non-vacuity: a stream of two frames + a partial third satisfies the hypothesis and really
-    delivers messages -/
-example : NoZeroRead .rfc5766 [0x40, 0, 0, 1, 0xaa, 0, 0, 0, 0x40, 1, 0, 2, 0xbb, 0xcc, 0, 0, 0x40] := by
-  simp only [NoZeroRead, headerLen]; decide
+/-- non-vacuity: two frames + a partial third, cut inside a header and inside a payload -/
 example : (tOut (feedAll turnTcpM (fun _ => 0) { compat := .rfc5766 } {}
     [[0x40, 0, 0], [1, 0xaa, 0, 0, 0, 0x40, 1, 0, 2, 0xbb], [0xcc, 0, 0, 0x40]])).msgs =
     [[0x40, 0, 0, 1, 0xaa, 0, 0, 0], [0x40, 1, 0, 2, 0xbb, 0xcc, 0, 0]] := by decide
 
-/-- **negation without the hypothesis**: ChannelData with an empty payload (`40 00 00 00`) followed
-    by a second frame: delivered alone it is handed up and the next frame follows; in one read the
-    zero-size read hits pending data, the TCP socket reports end-of-stream and everything is lost.
-    Same input as corpus/C17/turntcp_zero_frame.ops (reproduced on the real code, also over a real
-    tcp-bsd socket). -/
-theorem C17_turntcp_zero_frame_dependent :
-    ∃ (s : Bytes) (cs : List Bytes), cs.flatten = s ∧ cs ≠ [] ∧
-      (tOut (feedAll turnTcpM (fun _ => 0) { compat := .rfc5766 } {} cs)).msgs ≠
-      (tOut (feedAll turnTcpM (fun _ => 0) { compat := .rfc5766 } {} [s])).msgs :=
-  ⟨[0x40, 0, 0, 0, 0x40, 0, 0, 2, 0xbb, 0xcc, 0, 0], [[0x40, 0, 0, 0], [0x40, 0, 0, 2, 0xbb, 0xcc, 0, 0]],
-    by decide, by decide, by decide⟩
+/-- the former counter-example (ChannelData with an empty payload followed by a second frame,
+    corpus/C17/turntcp_zero_frame.ops): both deliveries now hand up both frames -/
+example :
+    (tOut (feedAll turnTcpM (fun _ => 0) { compat := .rfc5766 } {} [[0x40, 0, 0, 0], [0x40, 0, 0, 2, 0xbb, 0xcc, 0, 0]])).msgs =
+      [[0x40, 0, 0, 0], [0x40, 0, 0, 2, 0xbb, 0xcc, 0, 0]] ∧
+    (tOut (feedAll turnTcpM (fun _ => 0) { compat := .rfc5766 } {} [[0x40, 0, 0, 0, 0x40, 0, 0, 2, 0xbb, 0xcc, 0, 0]])).msgs =
+      [[0x40, 0, 0, 0], [0x40, 0, 0, 2, 0xbb, 0xcc, 0, 0]] := by decide
+
 end TurnTcp
 
 /-- **C17, tunnels**: once the SOCKS5 / pseudo-SSL / HTTP handshake is over, for EVERY sequence of
@@ -341,32 +332,77 @@ example : (feedAll (rfc4571M fun _ => false) (fun s => s.buf.length) {} {}
 example : (rOut (feedAll (rfc4571M fun _ => false) (fun s => s.buf.length) {} {}
     [[0, 3, 0x41, 0x42], [0x43, 0, 0, 0], [1, 0x44, 0, 5, 0x45]])).leftover = [0, 5, 0x45] := by decide
 
-/-- **over-read on send** (negation of in-bounds scatter for several buffers): any message of a
-    0xF900-byte buffer followed by a 0x1000-byte buffer.  Its second packet starts at offset 0xF800 of
-    the FIRST buffer, where 256 bytes remain, but the scatter entry built for it is
-    MIN (buffer size, packet_len) = 0x1100 bytes long: 0x1000 bytes past the end of the buffer.
-    (corpus/C17/abort/rfc4571_send_overread.ops: ASan heap-buffer-overflow in the real code.) -/
-theorem C17_rfc4571_send_overread (b0 b1 : Bytes) (h0 : b0.length = 0xF900) (h1 : b1.length = 0x1000) :
-    findStart [b0, b1] 0 0xF800 0 = (0, 0xF800, 0xF800) ∧
-    (gather [b0, b1] 0xF800 (min ((b0.length + b1.length) - 0xF800) MAX_PACKET)).2.1 = true := by
-  constructor
-  · simp [findStart, h0]
-  · simp [gather, h0, h1, MAX_PACKET]
+/-- the scatter entries built for one packet, from the buffer the packet starts in: they are the next
+    `n` bytes of the concatenated buffers, no entry leaves its buffer, `offset` advances by what was taken -/
+theorem gather_flat : ∀ (bufs : List Bytes) (oib n : Nat), (∀ b rest, bufs = b :: rest → oib ≤ b.length) →
+    (gather bufs oib n).1.flatten = (bufs.flatten.drop oib).take n ∧ (gather bufs oib n).2.1 = false ∧
+    (gather bufs oib n).2.2 = min n (bufs.flatten.length - oib) := by
+  intro bufs
+  induction bufs with
+  | nil => intro oib n _; simp [gather]
+  | cons b rest ih =>
+    intro oib n h
+    have hoib := h b rest rfl
+    obtain ⟨i1, i2, i3⟩ := ih 0 (n - min (b.length - oib) n) (fun _ _ _ => Nat.zero_le _)
+    simp only [gather, List.flatten_cons, i1, i2, i3, List.drop_zero, List.length_append]
+    refine ⟨?_, ?_, by omega⟩
+    · rw [List.drop_append_of_le_length hoib, List.take_append]
+      simp only [List.length_drop]
+      by_cases hc : n ≤ b.length - oib
+      · have h1 : min (b.length - oib) n = n := by omega
+        have h2 : n - (b.length - oib) = 0 := by omega
+        simp [h1, h2]
+      · have h1 : min (b.length - oib) n = b.length - oib := by omega
+        rw [h1, List.take_of_length_le (by simp), List.take_of_length_le (l := b.drop oib) (by simp; omega)]
+    · simp only [Bool.or_false, decide_eq_false_iff_not]; omega
 
-/-- a message held in ONE buffer: every packet handed to the TCP socket is the next (at most 0xF800)
-    bytes of the message, read inside the buffer -/
-theorem C17_rfc4571_send_frames (d : Bytes) (offset : Nat) (h : offset < d.length) :
-    findStart [d] 0 offset 0 = (0, offset, offset) ∧
-    (gather ([d].drop 0) offset (min (d.length - offset) MAX_PACKET)).1.flatten =
-      (d.drop offset).take (min (d.length - offset) MAX_PACKET) ∧
-    (gather ([d].drop 0) offset (min (d.length - offset) MAX_PACKET)).2.1 = false ∧
-    (gather ([d].drop 0) offset (min (d.length - offset) MAX_PACKET)).2.2 = min (d.length - offset) MAX_PACKET := by
-  have h1 : ¬ (d.length < offset) := by omega
-  have hmin : min d.length (min (d.length - offset) MAX_PACKET) = min (d.length - offset) MAX_PACKET := by omega
-  refine ⟨by simp [findStart, h1], ?_, ?_, ?_⟩
-  · simp [gather, hmin]
-  · simp only [List.drop_zero, gather, hmin, Bool.or_false, decide_eq_false_iff_not]; omega
-  · simp [gather, hmin]
+theorem findStart_gather : ∀ (bufs : List Bytes) (j cur offset n : Nat), cur ≤ offset →
+    (gather (bufs.drop ((findStart bufs j offset cur).1 - j)) (findStart bufs j offset cur).2.1 n).1.flatten =
+      (bufs.flatten.drop (offset - cur)).take n ∧
+    (gather (bufs.drop ((findStart bufs j offset cur).1 - j)) (findStart bufs j offset cur).2.1 n).2.1 = false ∧
+    (gather (bufs.drop ((findStart bufs j offset cur).1 - j)) (findStart bufs j offset cur).2.1 n).2.2 =
+      min n (bufs.flatten.length - (offset - cur)) ∧
+    j ≤ (findStart bufs j offset cur).1 := by
+  intro bufs
+  induction bufs with
+  | nil => intro j cur offset n _; simp [findStart, gather]
+  | cons b rest ih =>
+    intro j cur offset n hcur
+    by_cases hskip : b.length ≤ offset - cur
+    · obtain ⟨i1, i2, i3, i4⟩ := ih (j + 1) (cur + b.length) offset n (by omega)
+      simp only [findStart, hskip, ↓reduceIte]
+      have hj : (findStart rest (j + 1) offset (cur + b.length)).1 - j =
+          ((findStart rest (j + 1) offset (cur + b.length)).1 - (j + 1)) + 1 := by omega
+      rw [hj, List.drop_succ_cons, i1, i2, i3]
+      refine ⟨?_, rfl, ?_, by omega⟩
+      · rw [List.flatten_cons, List.drop_append, List.drop_eq_nil_of_le hskip, List.nil_append]
+        congr 2; omega
+      · simp only [List.flatten_cons, List.length_append]; omega
+    · simp only [findStart, hskip, ↓reduceIte, Nat.sub_self, List.drop_zero]
+      obtain ⟨g1, g2, g3⟩ := gather_flat (b :: rest) (offset - cur) n
+        (fun b' rest' h => by obtain ⟨rfl, _⟩ := List.cons.inj h; omega)
+      exact ⟨g1, g2, g3, Nat.le_refl _⟩
+
+/-- **C17, ICE-TCP send framing** (full strength, a5ed163): for a message made of ANY number of
+    buffers and every packet start `offset`, the scatter entries handed to the TCP socket behind the
+    2-byte length are exactly the next `n` bytes of the message (the same bytes as `Nice.Copy.gather`,
+    the kernel proved in C02), no entry reads outside its buffer, and the offset advances by `n`. -/
+theorem C17_rfc4571_send_frames (bufs : List Bytes) (offset n : Nat) (h : offset + n ≤ bufs.flatten.length) :
+    (gather (bufs.drop (findStart bufs 0 offset 0).1) (findStart bufs 0 offset 0).2.1 n).1.flatten =
+      Nice.Copy.gather bufs offset n ∧
+    (gather (bufs.drop (findStart bufs 0 offset 0).1) (findStart bufs 0 offset 0).2.1 n).1.flatten =
+      (bufs.flatten.drop offset).take n ∧
+    (gather (bufs.drop (findStart bufs 0 offset 0).1) (findStart bufs 0 offset 0).2.1 n).2.1 = false ∧
+    (gather (bufs.drop (findStart bufs 0 offset 0).1) (findStart bufs 0 offset 0).2.1 n).2.2 = n := by
+  obtain ⟨f1, f2, f3, _⟩ := findStart_gather bufs 0 0 offset n (Nat.zero_le _)
+  simp only [Nat.sub_zero] at f1 f2 f3
+  exact ⟨by rw [f1, Nice.Props.C02.gather_eq], f1, f2, by rw [f3]; omega⟩
+
+/-- the former over-read (0xF900 + 0x1000 bytes in two buffers, corpus/C17/rfc4571_send_overread.ops):
+    the second packet now takes the 256 bytes left in the first buffer and continues in the second -/
+example (b0 b1 : Bytes) (h0 : b0.length = 0xF900) (h1 : b1.length = 0x1000) :
+    (gather ([b0, b1].drop (findStart [b0, b1] 0 0xF800 0).1) (findStart [b0, b1] 0 0xF800 0).2.1 0x1100).2.1 = false :=
+  (C17_rfc4571_send_frames [b0, b1] 0xF800 0x1100 (by simp [h0, h1])).2.2.1
 
 example : (Rfc4571.send {} [[1, 2, 3], [4]]).1.down = [[0, 4, 1, 2, 3, 4]] := by decide
 
@@ -386,14 +422,13 @@ theorem C17_flush_contiguous (fuel : Nat) (q : List Bytes) (k : Kernel) (w : Lis
 example : (flush 3 [[1, 2, 3], [4]] { acc := [2] } []).2.1 = [[1, 2]] ∧ (flush 3 [[1, 2, 3], [4]] { acc := [2] } []).2.2.1 = [[3], [4]] := by
   decide
 
-/-- **C17 (output side), single-buffer messages**: for every sequence of sends, kernel acceptance
-    patterns (0..len bytes per write, EAGAIN) and writable events, the bytes accepted by the
-    descriptor followed by the queued backlog are exactly the concatenation of the frames the socket
-    accepted, in order — so what is on the wire is always a prefix of that concatenation: a frame is
-    never interleaved with another, reordered, duplicated or altered.
-    `_partial`: messages made of ONE buffer.  For messages of several buffers the statement is false
-    on the unchanged tree (`C17_frames_not_contiguous`). -/
-theorem C17_frames_contiguous_partial (ops : List Op) (r : Run) (h : Inv r) : Inv (runOps r ops) := by
+/-- **C17 (output side)** (full strength, 2caa19c): for every sequence of sends of messages made of
+    ANY number of buffers, kernel acceptance patterns (0..len bytes per write, EAGAIN) and writable
+    events, the bytes accepted by the descriptor followed by the queued backlog are exactly the
+    concatenation of the frames the socket accepted, in order — so what is on the wire is always a
+    prefix of that concatenation: a frame is never interleaved with another, reordered, duplicated
+    or altered, and it is either queued whole behind the accepted bytes or not at all. -/
+theorem C17_frames_contiguous (ops : List Op) (r : Run) (h : Inv r) : Inv (runOps r ops) := by
   induction ops generalizing r with
   | nil => exact h
   | cons op ops ih =>
@@ -416,18 +451,17 @@ theorem C17_frames_contiguous_partial (ops : List Op) (r : Run) (h : Inv r) : In
 
 /-- non-vacuity: the invariant holds initially, and a session with partial writes really queues -/
 example : Inv {} := rfl
-example : (runOps {} [.script [2], .sendr [1, 2, 3], .sendr [4, 5], .script [1, 0], .writable]).wire
-    = [1, 2, 3] ∧ backlog (runOps {} [.script [2], .sendr [1, 2, 3], .sendr [4, 5], .script [1, 0], .writable]).st = [4, 5] := by
+example : (runOps {} [.script [2], .sendr [[1, 2], [3]], .sendr [[4, 5]], .script [1, 0], .writable]).wire
+    = [1, 2, 3] ∧ backlog (runOps {} [.script [2], .sendr [[1, 2], [3]], .sendr [[4, 5]], .script [1, 0], .writable]).st = [4, 5] := by
   decide
 
-/-- **negation for several buffers**: two 10-byte buffers, the kernel accepts 6 bytes; what goes on
-    the wire afterwards is not the rest of the message (bytes 10 and 11 are skipped, two
-    uninitialised bytes follow).  Same input as corpus/C17/sendqueue_partial_multibuf.ops. -/
-theorem C17_frames_not_contiguous :
+/-- the former counter-example (two 10-byte buffers, the kernel accepts 6 bytes,
+    corpus/C17/sendqueue_partial_multibuf.ops): the queued remainder is now the rest of the message -/
+example :
     let b0 : Bytes := [0, 1, 2, 3, 4, 5, 6, 7, 8, 9]
     let b1 : Bytes := [16, 17, 18, 19, 20, 21, 22, 23, 24, 25]
     let r := sendMessage {} { acc := [6] } [b0, b1] true
-    r.1 = 20 ∧ r.2.1.flatten ++ backlog r.2.2.1 ≠ b0 ++ b1 := by
+    r.1 = 20 ∧ r.2.1.flatten ++ backlog r.2.2.1 = b0 ++ b1 := by
   decide
 end SendQueue
 
